@@ -137,7 +137,7 @@ class SelectResults(object):
     def __getitem__(self, value):
         if isinstance(value, slice):
             assert not value.step, "Slices do not support steps"
-            if not value.start and not value.stop:
+            if not value.start and value.stop is None:
                 # No need to copy, I'm immutable
                 return self
 
